@@ -148,6 +148,6 @@ def scenarios(tier):
                 stars = [None] if nd < 3 else ([[1, 1, 1]] if tier == 'quick' else [[1, 1, 1], [2, 2, 2]])
                 for st in stars:
                     T.append({'name': 'steady/%s/%s/%s%s' % (g, ds, bc, '/star' if st else ''), 'fn': 'pv.props.c06:steady',
-                              'params': {'g': g, 'dims': dims, 'bc': bc, 'star': st}, 'timeout': 40, 'validate': 1})
+                              'params': {'g': g, 'dims': dims, 'bc': bc, 'star': st}, 'timeout': 40 if tier == 'quick' else 150, 'validate': 1})
     T.sort(key=lambda t: -int(np.prod(t['params']['dims'])) - (100 if 'Spherical' in t['name'] else 0))
     return T
